@@ -279,6 +279,10 @@ func C02(sp *spec.Spec, ex *rt.Exchange) *Verdict {
 	if ex.Case.NoPay || m.Payload == nil {
 		return v
 	}
+	if ex.Case.Raw == nil {
+		// the request was produced by the generated client: judge where each attribute travelled
+		RequestPlacement(sp, sv, m, ex, v)
+	}
 	locOf := func(a string) valgen.Loc { return cases.LocOf(m.HTTP, a) }
 	want := rt.NormKeys(Expect(sp, m.Payload.Type, ex.Case.Sent, locOf, nil, 0))
 	got := ex.StubIn.Payload
@@ -394,7 +398,7 @@ func C03(sp *spec.Spec, ex *rt.Exchange) *Verdict {
 		v.Inconclusive = "not a result outcome"
 		return v
 	}
-	if ex.WireResp == nil || ex.ClientOut == nil {
+	if ex.WireResp == nil || (ex.ClientOut == nil && ex.Case.Raw == nil) {
 		v.Inconclusive = "no response recorded"
 		return v
 	}
@@ -425,6 +429,13 @@ func C03(sp *spec.Spec, ex *rt.Exchange) *Verdict {
 	if ex.WireResp.WriteHeaders != 1 && !(ex.WireResp.WriteHeaders == 0 && ex.WireResp.Status == 200) {
 		v.add("write-header-calls", "WriteHeader called %d times", ex.WireResp.WriteHeaders)
 	}
+	if ex.Case.Raw != nil {
+		// hand-encoded request: there is no generated client on the way back; judge the wire only
+		if m.Result != nil && !isViewed(sp, m) {
+			ResponsePlacement(sp, m, ex, v)
+		}
+		return v
+	}
 	if ex.ClientOut.Err != nil {
 		v.add(mkKey("refused:"+ex.ClientOut.Err.Name, "valid-result-refused-by-client:"+ex.ClientOut.Err.Name, "", ExplainResult(sp, m, oc.Result)), "client returned an error for a valid result %s: [%s] %s", vtree.Show(oc.Result), ex.ClientOut.Err.GoType, trunc(ex.ClientOut.Err.Message, 300))
 		return v
@@ -437,6 +448,9 @@ func C03(sp *spec.Spec, ex *rt.Exchange) *Verdict {
 	}
 	resp := pickResponse(m, oc.Result)
 	locOf := func(a string) valgen.Loc { return cases.RespLocOf(resp, a) }
+	if !isViewed(sp, m) {
+		ResponsePlacement(sp, m, ex, v)
+	}
 	if isViewed(sp, m) {
 		// projection is C08's business: C03 only judges non-viewed results
 		return v
